@@ -25,6 +25,9 @@ def sanitize(op):
     # behind and emits nothing
     if len(t) > 3 and t[0] == "api" and t[1] == "DecrBy" and t[3] == MIN64:
         t[3] = "5"
+    # GeoAddNX on a missing key creates an empty sorted set and emits nothing (FINDINGS.md D-8, the A-15b pattern)
+    if len(t) > 2 and t[0] == "api" and t[1] == "GeoAddNX":
+        return "api Exists " + t[2]
     # empty collections created through the embedded API (known finding of C03) emit nothing either
     if len(t) > 1 and t[0] == "api" and ((t[1] == "HMSet" and t[3:] == ["[", "]"]) or (t[1] in ("SAdd", "LPush", "RPush") and len(t) == 3)):
         return "api Exists " + t[2]
